@@ -331,6 +331,19 @@ type WriteResult struct {
 // database's journal mode, and records the committed image in the history under
 // the position the node reports.
 func (n *CNode) Write(db string, tx pager.WalTx) (WriteResult, error) {
+	// An application retries SQLITE_BUSY (LiteFS's own snapshots and applies hold
+	// SQLite's locks for a moment); give up after three seconds.
+	deadline := time.Now().Add(3 * time.Second)
+	for {
+		wr, err := n.writeOnce(db, tx)
+		if err != nil || wr.Err != pager.ErrBusy || time.Now().After(deadline) {
+			return wr, err
+		}
+		time.Sleep(200 * time.Microsecond)
+	}
+}
+
+func (n *CNode) writeOnce(db string, tx pager.WalTx) (WriteResult, error) {
 	var wr WriteResult
 	st, err := n.state(db)
 	if err != nil {
@@ -622,3 +635,25 @@ func (s *faultStream) Close() error {
 }
 
 var _ = os.Remove
+
+// SetOnOp installs a callback invoked before every file operation the node's
+// writer connection for db issues (nil removes it).
+func (n *CNode) SetOnOp(db string, fn func(op string)) {
+	st, err := n.state(db)
+	if err != nil {
+		return
+	}
+	st.conn.OnOp = fn
+}
+
+// CloseConns closes every writer connection of the node (releasing its locks).
+func (n *CNode) CloseConns() { n.closeConns() }
+
+// CommitReturned reports whether the finalising operation of the node's
+// current (or last) transaction on db has returned success.
+func (n *CNode) CommitReturned(db string) bool {
+	if st := n.states[db]; st != nil {
+		return st.conn.CommitReturned
+	}
+	return false
+}
